@@ -109,7 +109,9 @@ META = {
                     'bitwise on hierarchies with >= 3 levels',
                     'after its first solve a solver draws no random numbers: the same call with the NumPy global RNG in different '
                     'states returns the same bits (on the object itself and on a twin with the same first solve); the first solve '
-                    'itself is the known finding coarse-relaxation-lazy-random-rho',
+                    'itself is the known finding coarse-relaxation-lazy-random-rho; coarse_solver=\'jacobi_ne\' with rho on a coarsest '
+                    'operator not stored as CSR is the known finding coarse-relaxation-rho-every-solve (fixed corpus case on every run; '
+                    'assigned only for that name + a non-CSR coarsest operator + bit-identical results under equal RNG states)',
                     'format independence at model level: the conversions to CSR keep the dense meaning and the Galerkin step sees '
                     'the meaning only (convert_preserves_meaning, galerkin_format_independent); the canonical stored form is unique '
                     '(canonical_unique: sorted duplicate-free rows + same meaning + same stored pattern => equal indptr / indices / '
@@ -144,9 +146,6 @@ META = {
                     'comparison for matrices with stored entries 0 < |a| < 1e-16 (the BSR branch of classical_strength_of_connection '
                     'drops them, the CSR branch keeps them as strong connections; the symmetric measure is all ones for BSR, scaled '
                     'values that underflow for CSR)',
-                    'left out of the repeated-solve clause until fixed or listed (reported): coarse_solver=\'jacobi_ne\' (withrho) on a '
-                    'coarsest operator that is not stored as CSR (setup_jacobi_ne converts it on a throw-away level inside every '
-                    'coarse solve, the spectral-radius estimate is cached on that temporary and re-drawn from numpy.random in every solve)',
                     '"hierarchy" = A, P, R, B, BH, splitting of every level; with keep=True also AggOp / T, and the pattern of C',
                     'reuse theorems: every coarse-solver call of a solver passes the same matrix (checked per instance: the object '
                     'levels[-1].A, content unchanged)',
@@ -166,6 +165,7 @@ K_BSR_BLOCKS = 'bsr-blocks-are-supernodes'
 K_INT64 = 'int64-index-arrays-rejected'
 K_SORT = 'solve-sorts-level-operator-in-place'
 K_LAZY_RHO = 'coarse-relaxation-lazy-random-rho'
+K_RHO_EVERY = 'coarse-relaxation-rho-every-solve'
 K_BSR_UNSUPPORTED = 'bsr-input-csr-only-option'
 K_BSR_SYM_VALUES = 'bsr-symmetric-strength-unit-values'
 K_RS_BSR_ZEROS = 'rs-bsr-stored-zeros-are-connections'
@@ -1740,11 +1740,13 @@ REPEAT_COARSE = ['jacobi', 'richardson', 'chebyshev', 'block_jacobi', 'jacobi_ne
                  'gauss_seidel_ne', 'gauss_seidel_nr', 'sor', 'schwarz', 'block_gauss_seidel', 'cg', 'pinv']
 
 
-def jacobi_ne_on_converted_level(case, ml):
-    """coarse_solver='jacobi_ne' (scaled by a spectral radius) on a coarsest operator that is not stored as CSR (the BSR Galerkin
-    products of the aggregation solvers): setup_jacobi_ne converts the matrix on a throw-away level object inside every coarse
-    solve and the estimate is cached on that temporary, so every solve re-estimates it from new numpy.random start vectors.
-    Reported; until it is fixed or listed in KNOWN_FINDINGS.txt this input class is left out of the repeated-solve clause."""
+def rho_on_converted_copy(case, ml):
+    """the input class of the known finding coarse-relaxation-rho-every-solve, decided from the input alone: a relaxation-type
+    coarse solver that scales by a spectral radius of a CONVERTED COPY of the coarsest operator -- measured on BSR 1x1 / 2x2
+    coarsest levels of smoothed-aggregation and root-node hierarchies: of the eleven relaxation names only 'jacobi_ne' with
+    rho (setup_jacobi_ne estimates on lvl.Acsr of the throw-away level made in every coarse solve; jacobi / block_jacobi /
+    richardson / chebyshev cache on the level matrix itself, gauss_seidel_ne / _nr use no radius) -- AND a coarsest operator that
+    is not stored as CSR (for CSR the "copy" is the operator itself and the cache hits)"""
     co = case['kw'].get('coarse_solver')
     return (name_of(co) == 'jacobi_ne' and not (isinstance(co, tuple) and co[1].get('withrho') is False)
             and ml.levels[-1].A.format != 'csr')
@@ -1786,9 +1788,6 @@ def eval_repeat_case(ctx, case, warm, call, extras, fmt, bs):
     Ac = ml.levels[-1].A
     cfmt = Ac.format + ('%dx%d' % Ac.blocksize if Ac.format == 'bsr' else '')
     cs = str(name_of(case['kw'].get('coarse_solver', 'pinv')))
-    if jacobi_ne_on_converted_level(case, ml):
-        ctx.feat('left_out:repeat_jacobi_ne_coarse_on_' + Ac.format + '_level')
-        return
     ctx.case(key=_key('repeat', ctor, fmt, cs, cfmt, nlev >= 2, int(Ac.shape[0]) > 15, call.get('cycle'), call.get('accel'), len(extras)),
              nontrivial=nlev >= 2, sample={**summ, 'levels': nlev, 'coarsest': cfmt + ' n=%d' % Ac.shape[0]} if ctx.evaluations % 41 == 0 else None)
     ctx.feat('repeat_ctor:' + ctor)
@@ -1825,11 +1824,28 @@ def eval_repeat_case(ctx, case, warm, call, extras, fmt, bs):
     if fk is None:
         p3 = repeat_protocol(case, warm, call, extras, fmt, bs, sort_first=True, one_seed=call['seed'])
         if p3 is not None and len(set(p3['r'])) == 1:
+            if rho_on_converted_copy(case, ml) and not p3['changed_content']:
+                fk = K_RHO_EVERY       # exactly the listed input class, and the RNG state of each solve explains the difference
             note = ' [bit-identical when the NumPy global RNG is put into the same state before every call: the solver still draws random numbers in its second and later solves]'
     ctx.violation(f'{ctor} ({fmt}): after a first solve {call_text(warm)} the call {call_text(call)} (NumPy global RNG in another state '
                   f'each time) returns different bits {which}; smoothers {sorted(smoother_names(case))}, coarse solver '
                   f'{case["kw"].get("coarse_solver")!r}, {nlev} levels, coarsest operator {cfmt} n={Ac.shape[0]}' + note,
                   payload('repeat'), fkey=fk)
+
+
+def rho_every_solve_corpus(ctx):
+    """fixed corpus, every run: the listed instance of coarse-relaxation-rho-every-solve (and its root-node twin): three identical
+    solves on one object with the NumPy global RNG in three different states"""
+    import pyamg
+    D = np.ascontiguousarray(pyamg.gallery.poisson((14, 14), format='csr').toarray() / 3.0)
+    n = D.shape[0]
+    b = (np.arange(n) % 7) / 3.0
+    for ctor in ('sa', 'rn'):
+        case = {'ctor': ctor, 'A': D, 'dtype': None, 'bs': 1, 'kw': {'max_levels': 2, 'max_coarse': 40, 'coarse_solver': 'jacobi_ne'},
+                'seed': 5, 'tags': {'fam': 'p2', 'complex': False}}
+        call = {'kind': 'solve', 'seed': 2, 'b': b, 'tol': 1e-30, 'maxiter': 2}
+        ctx.feat('rho_every_solve_corpus')
+        eval_repeat_case(ctx, case, dict(call, seed=1), call, [], 'csr', 1)
 
 
 def repeat_core(ctx, rng, count):
@@ -2713,6 +2729,7 @@ def run(ctx):
     part_convert_x(ctx, e54, ctx.scale(40, 600), q)
     part_pw_matchings(ctx, e54, ctx.scale(60, 1500), q)
     b3 = np.random.default_rng([int(getattr(ctx, 'round_seed', ctx.seed)) % (2 ** 32), 159])   # own stream
+    rho_every_solve_corpus(ctx)
     options_core(ctx, b3, ctx.scale(30, 900), q)
     repeat_core(ctx, b3, ctx.scale(24, 1500))
     build_stream(ctx, rng, ctx.scale(200, 7000), q)
